@@ -1053,10 +1053,11 @@ class ZoneSpecifier:
             d=prev_era.untilDay,
             ss=prev_era.untilSeconds,
             f=prev_era.untilTimeSuffix)
-        if start_date_time < DateTuple(
-                y=start_ym.y, M=start_ym.M, d=1, ss=0, f='w'):
-            start_date_time = DateTuple(
-                y=start_ym.y, M=start_ym.M, d=1, ss=0, f='w')
+        # Compare without the suffix (like the C++ operator<() on DateTuple), so
+        # that an UNTIL of exactly the lower bound keeps its 's' or 'u' suffix.
+        lower_bound = DateTuple(y=start_ym.y, M=start_ym.M, d=1, ss=0, f='w')
+        if start_date_time[:4] < lower_bound[:4]:
+            start_date_time = lower_bound
 
         until_date_time = DateTuple(
             y=zone_era.untilYear,
